@@ -287,6 +287,12 @@ func runC18Case(c *fw.Ctx, id string, cs c18Case) {
 		}
 		return ok
 	}
+	if !cs.Full {
+		// connected and idle: nothing may be armed by the connection set-up itself
+		if !quiescent("right after Dial") {
+			return
+		}
+	}
 	for si, st := range cs.Steps {
 		where := fmt.Sprintf("after step %d (%s)", si, st.Kind)
 		switch st.Kind {
@@ -347,6 +353,11 @@ func runC18Case(c *fw.Ctx, id string, cs c18Case) {
 						c.Count("outstanding_deadline_checks", 1)
 						if dl.Before(wt.Add(cs.Timeout - time.Millisecond)) {
 							c.Violate(id, "silent:deadline-too-early", fmt.Sprintf("%s: armed deadline is %v after the last send, read timeout is %v: %s", where, dl.Sub(wt), cs.Timeout, cs), cs)
+						}
+						// ... and not later than the configured read timeout, counted from
+						// the moment the client asked for it
+						if d, at, ok := fc.LastArm(); ok && d.Sub(at) > cs.Timeout+time.Millisecond {
+							c.Violate(id, "silent:deadline-too-late", fmt.Sprintf("%s: the client armed a read deadline %v ahead, the configured read timeout is %v: %s", where, d.Sub(at).Round(time.Millisecond), cs.Timeout, cs), cs)
 						}
 					}
 				}
